@@ -3,7 +3,7 @@
     Composite inertias: for EVERY tree and per-node (shift vector, compact spatial inertia). *)
 From Coq Require Import List Reals.
 Import ListNotations.
-Require Import Num Vec Tree MB Spatial C15_Model C15_Proofs C15_CBI.
+Require Import Num Vec Tree MB Spatial C15_Model C15_Proofs C15_Frames C15_CBI.
 Local Open Scope R_scope.
 
 Theorem C15_mass_is_sum bs : calcSystemMass ROps bs = lsum (map g_m bs).
@@ -115,6 +115,22 @@ Theorem C15_agg_hyp_satisfiable :
 Proof. exact agg_hyp_satisfiable. Qed.
 Print Assumptions C15_agg_hyp_satisfiable.
 
+(** body-frame layer: the code paths that work in B and re-express afterwards equal the Ground-frame formulas on [toG b] *)
+Theorem C15_bodyCentralMomentumB_is_G (b : bodyBR) : orthonormal (f_R b) ->
+  bodyCentralMomentumB ROps b = bodyCentralMomentum ROps (toG ROps b).
+Proof. exact (bodyCentralMomentumB_is_G b). Qed.
+Print Assumptions C15_bodyCentralMomentumB_is_G.
+
+Theorem C15_transformedMassPropsB_is_G (b : bodyBR) : orthonormal (f_R b) ->
+  transformedMassPropsB ROps b
+  = (g_m (toG ROps b), massCenterInGround ROps (toG ROps b), bodyUnitInertiaAboutGround ROps (toG ROps b)).
+Proof. exact (transformedMassPropsB_is_G b). Qed.
+Print Assumptions C15_transformedMassPropsB_is_G.
+
+Theorem C15_orthonormal_satisfiable : orthonormal ((0,-1,0),(1,0,0),(0,0,1)).
+Proof. exact orthonormal_satisfiable. Qed.
+Print Assumptions C15_orthonormal_satisfiable.
+
 (** composite body inertias *)
 Theorem C15_toM_shift S (A : USpR) : toM (uspShift ROps S A) = mshift S (toM A).
 Proof. exact (toM_shift S A). Qed.
@@ -166,6 +182,19 @@ Theorem C15_cbi_compact_form t : cbi_ok t -> tmass t <> 0 ->
   let '(M, h, J) := direct (0,0,0) t in Rroot t = (M, v3_scale ROps (/ M) h, sym_scale ROps (/ M) J).
 Proof. exact (cbi_compact_form xl xM t). Qed.
 End T.
+Section TG.
+Context {X : Type} (xl : X -> Vec3 R) (xM : X -> USpR).
+(** the recursion with the proposed repair (zero-mass child composites skipped) is exact whenever no mass is negative *)
+Theorem C15_cbiG_is_direct_sum_repaired (t : tree X) : nonneg xM t -> toM (RrootG xl xM t) = direct xl xM (0,0,0) t.
+Proof. exact (cbiG_is_direct_sum xl xM t). Qed.
+End TG.
+Theorem C15_massless_chain_outside_domain :
+  let mk (m : R) : Vec3 R * USpR := ((1,0,0), (m, (0,0,0), ((0,0,0),(0,0,0)))) in
+  let t := Node (mk 2) [Node (mk 0) [Node (mk 0) []]] in
+  ~ cbi_ok snd t /\ nonneg snd t.
+Proof. exact massless_chain_outside_domain. Qed.
+Print Assumptions C15_cbiG_is_direct_sum_repaired.
+Print Assumptions C15_massless_chain_outside_domain.
 Print Assumptions C15_Rroot_mass.
 Print Assumptions C15_cbi_is_direct_sum_gen.
 Print Assumptions C15_cbi_is_direct_sum.
